@@ -154,8 +154,9 @@ def jEventFields (j : Json) : E Event := do
   pure (Gene.Props.Refine.eventOfFields source id fields)
 
 /-- are the numbers of the event's fields within their Rust types? (the last hypothesis of `checked_refines_event`) -/
-def jEventWf (j : Json) : E (Option Bool) := do
-  if (jOpt j "gval").isSome then return none
+def jEventWf (j : Json) (gv : Json → E GVal) : E (Option Bool) := do
+  if let some g := jOpt j "gval" then
+    return some (Gene.Props.Refine.gvalWfB (← gv g))
   let fields ← match jOpt j "fields" with
     | none => pure []
     | some a => do
@@ -494,7 +495,7 @@ def jEvent (j : Json) : E Event := do
     let v ← jGVal g
     let source ← jStr j "source"
     let id ← jInt (← j.getObjVal? "id")
-    pure { source := source, id := id, get := fun segs => M.gget v segs }
+    pure (Gene.Props.Refine.eventOfGVal source id v)
   | none => jEventFields j
 
 def optValueJson : Option FieldValue → Json
@@ -919,7 +920,7 @@ def handle (j : Json) : E Json := do
           let en := (sr.filter (fun p => !p.2)).map Prod.fst
           Json.mkObj [("scans", Json.arr (events.map (fun ev => specOutJson (S.scan x ev en))).toArray)]
       -- the hypotheses of the refinement theorem, decided per event (Gene/Props/RelCheck.lean: `checked_refines_event`)
-      let wfs ← (← (← j.getObjVal? "events").getArr?).toList.mapM jEventWf
+      let wfs ← (← (← j.getObjVal? "events").getArr?).toList.mapM (fun e => jEventWf e jGVal)
       let rel : Json := match modelEngine x tdocs rules with
         | some eng =>
           let en := (sr.filter (fun p => !p.2)).map Prod.fst
